@@ -326,8 +326,17 @@ func runC18(c *wk.Ctx) {
 			}
 			var fn schema.CallableFunction
 			var err error
+			// the type handler only states the result type for given argument types; every third function has one
+			// that refuses (it is asked about types, it has no say in whether a call is made)
+			typeHandler := func([]schema.Type) (schema.Type, error) { return schema.NewAnySchema(), nil }
+			if idx%3 == 1 {
+				typeHandler = func([]schema.Type) (schema.Type, error) {
+					return nil, fmt.Errorf("this type handler refuses every list of argument types")
+				}
+				c.Count("dynamic_functions_with_a_refusing_type_handler")
+			}
 			p, site, msg, _ := wk.Guard(func() {
-				fn, err = schema.NewDynamicCallableFunction("f", di.ts, nil, handler, func([]schema.Type) (schema.Type, error) { return schema.NewAnySchema(), nil })
+				fn, err = schema.NewDynamicCallableFunction("f", di.ts, nil, handler, typeHandler)
 			})
 			c.Count("constructor_calls")
 			c.Eval(wk.Hash64(sigName, di.name, "dynamic"), true)
@@ -567,6 +576,34 @@ func c18Variadic(c *wk.Ctx, pool []c18Type, k int) {
 	}
 	if (declOut != nil || dynamic) && res != int64(3) {
 		c.Violation("C18:call:wrong-result:variadic", fmt.Sprintf("accepted variadic handler %s: Call returned %#v, handler saw %d elements", ft, res, seenLen), wit)
+	}
+	// every other argument count is a call-shape error (one fewer is what Go itself would allow for a variadic
+	// function; the declaration has a list there)
+	for n := 0; n <= len(args)+2; n++ {
+		if n == len(args) {
+			continue
+		}
+		wrong := make([]any, n)
+		for i := range wrong {
+			if i < len(args) {
+				wrong[i] = args[i]
+			} else {
+				wrong[i] = args[len(args)-1]
+			}
+		}
+		var werr error
+		p, site, msg, _ = wk.Guard(func() { _, werr = fn.Call(wrong) })
+		c.Count("calls")
+		c.Count("variadic_calls_with_a_wrong_count")
+		w := map[string]any{"handler": ft.String(), "variadic": true, "nargs": n, "declared": len(args)}
+		var fce *schema.FunctionCallError
+		if p {
+			c.Violation("C18:call:panic:variadic:"+site, fmt.Sprintf("accepted variadic handler %s: Call with %d argument(s) (declared %d) panicked: %s", ft, n, len(args), msg), w)
+		} else if werr == nil {
+			c.Violation("C18:call:wrong-arg-count-accepted:variadic", fmt.Sprintf("accepted variadic handler %s: Call with %d argument(s) (declared %d) returned no error", ft, n, len(args)), w)
+		} else if errors.As(werr, &fce) && fce.IsFunctionReportedError {
+			c.Violation("C18:call:shape-error-attributed-to-function:variadic", fmt.Sprintf("wrong argument count reported as function-reported error: %v", werr), w)
+		}
 	}
 }
 
